@@ -13,7 +13,7 @@ def _no_finish(self):
 
 batlib.Battery.finish = _no_finish
 here = os.path.dirname(os.path.abspath(__file__))
-if batlib.REPLAY is not None and batlib.REPLAY.get("kind") != "root":
+if batlib.REPLAY is not None and batlib.REPLAY.get("kind") not in ("root", "stale-event"):
     batlib.Battery.finish = _finish
     runpy.run_path(os.path.join(here, "c02_battery.py"), run_name="__main__")
     sys.exit(0)
@@ -94,12 +94,61 @@ def root_deleted_inotify(split=False):
     return out
 
 
+def stale_event_of_unscheduled_watch():
+    """an event of watch A is still in the observer's queue when A is unscheduled; then an event of watch B: the observer
+    thread must survive the stale entry and deliver B's event"""
+    from watchdog.observers.api import BaseObserver, EventEmitter
+    from watchdog.events import FileSystemEventHandler, FileCreatedEvent
+    errs, got = [], []
+    old = threading.excepthook
+    threading.excepthook = lambda a: errs.append(repr(a.exc_value))
+
+    class Em(EventEmitter):
+        def queue_events(self, timeout):
+            self.stopped_event.wait(0.05)
+
+    class H(FileSystemEventHandler):
+        def on_any_event(self, ev):
+            got.append(ev.src_path)
+    out = []
+    try:
+        obs = BaseObserver(Em, timeout=0.05)
+        wa = obs.schedule(H(), "/c07-a")
+        wb = obs.schedule(H(), "/c07-b")
+        ea = next(e for e in obs.emitters if e.watch == wa)
+        eb = next(e for e in obs.emitters if e.watch == wb)
+        ea.queue_event(FileCreatedEvent("/c07-a/x"))
+        obs.unschedule(wa)
+        eb.queue_event(FileCreatedEvent("/c07-b/y"))
+        obs.start()
+        t0 = time.time()
+        while time.time() - t0 < 3 and "/c07-b/y" not in got and obs.is_alive():
+            time.sleep(0.02)
+        alive = obs.is_alive()
+        obs.stop()
+        obs.join(3)
+        if errs:
+            out.append(f"the observer thread died with {errs[0]} on an event of a watch that had been unscheduled while the event was queued")
+        elif "/c07-b/y" not in got or not alive:
+            out.append(f"events delivered {got}, observer alive={alive}: the event of the still scheduled watch was not delivered")
+    finally:
+        threading.excepthook = old
+    return out
+
+
+if batlib.REPLAY is not None and batlib.REPLAY.get("kind") == "stale-event":
+    pr = stale_event_of_unscheduled_watch()
+    batlib.replay_result(bool(pr), pr[:2])
 if batlib.REPLAY is not None:
     pr = root_deleted_inotify(batlib.REPLAY.get("split", False))
     batlib.replay_result(bool(pr), pr[:2])
 runpy.run_path(os.path.join(here, "c02_battery.py"), run_name="__main__")
 bat = _captured["bat"]
 bat.failures = [f for f in bat.failures if "moved-in-directory-not-watched" not in f["key"]]
+bat.case("stale-event-of-unscheduled-watch")
+pr = stale_event_of_unscheduled_watch()
+if pr:
+    bat.fail("C07.observer-thread-dies", pr[0], {"kind": "stale-event", "problems": pr[:2]}, "BaseObserver.dispatch_events")
 for split in (False, True):
     bat.case(("root-deleted-inotify", split))
     pr = root_deleted_inotify(split)
